@@ -196,7 +196,8 @@ def cmp_od(od, od2, doc, st, rc, tag):
 def decorate(od, k):
     od.node_id = (7, 127, 1, None, 5, None)[k % 6]
     od.bitrate = (250000, 1000000, 10000, 500000, None, None)[k % 6]
-    od.comments = ("", "single line", "line one\nline two", "c1\n\nc3")[k % 4]
+    od.comments = ("", "single line", "line one\nline two", "c1\n\nc3", "\n".join("line %d of ten" % i for i in range(1, 11)),
+                   "\n".join("l%d" % i for i in range(1, 13)), "\n".join("c%d" % (i * 7 % 26) for i in range(1, 121)))[k % 7]
     di = od.device_information
     di.vendor_name, di.vendor_number = "ACME %d" % k, 0x1234 + k
     di.product_name, di.product_number, di.revision_number, di.order_code = "Prod uct", 7 + k, 0x00010002, "OC-1/2"
